@@ -190,7 +190,15 @@ extern "C" FILE* fopen64(char const* path, char const* mode)
         return fdopen(fd, mode);
     }
 
-    if (sim::Fault const* f = sim::fault_at(m, ev, sim::FLT_IO_ERROR))
+    sim::Fault const* openfail = sim::fault_at(m, ev, sim::FLT_IO_ERROR);
+    if (openfail == nullptr && !rd)
+    {
+        // "the n-th open for writing of this incarnation fails" (a = 2^62 + n)
+        openfail = sim::fault_at(m, (1ULL << 62) + m.nopen, sim::FLT_IO_ERROR);
+    }
+    if (!rd) ++m.nopen;
+
+    if (sim::Fault const* f = openfail)
     {
         ++m.n_ioerr;
         e.err = static_cast<int>(f->b);
@@ -252,7 +260,9 @@ static ssize_t model_write(int fd, char const* data, size_t n, std::string const
 
     if (sim::Fault const* k = sim::fault_at(m, ev, sim::FLT_KILL_FS))
     {
-        size_t const pre = (k->b < n) ? k->b : n;
+        // b >= 2^62 counts the bytes that are cut off at the end instead of those that are written
+        size_t const cut = static_cast<size_t>(k->b & 0xffffffffULL);
+        size_t const pre = (k->b >> 62) ? ((cut < n) ? n - cut : 0) : ((k->b < n) ? k->b : n);
         e.data.assign(data, pre);
         m.files[path].append(data, pre);
         if (m.tracing) m.trace.push_back(e);
